@@ -1324,6 +1324,19 @@ pub fn handle_trailer(
     if !end_stream {
         return Err((H2Error::ProtocolError, false));
     }
+    // The body ends here. An H1 peer needs the last-chunk (`0\r\n`) between the
+    // final data chunk and the trailer section (RFC 9112 §7.1): kawa's H1
+    // converter writes it on `end_body` of a chunked message, and the H1 parser
+    // emits the same `Flags` before the trailers it parsed. The H2 converter
+    // ignores `end_body`.
+    if kawa.body_size == BodySize::Chunked {
+        kawa.push_block(Block::Flags(Flags {
+            end_body: true,
+            end_chunk: false,
+            end_header: false,
+            end_stream: false,
+        }));
+    }
     let max_header_fields = max_header_fields as usize;
     let mut invalid_trailers = false;
     let mut budget_exceeded = false;
